@@ -5,6 +5,7 @@ Reason(e) ==
   CASE e.ev = "unmarshal" -> UnmarshalReason(e)
     [] e.ev = "probe" -> ProbeReason(e)
     [] e.ev = "sweep" -> SweepReason(e)
+    [] e.ev = "parallel" -> IF ~e.same_as_alone THEN "concurrent_instances_interfere" ELSE ""      \* four more receivers, each on its own goroutine, same history
     [] OTHER -> "unknown_event"
 Init == l = 1 /\ st = FALSE
 Next ==
